@@ -427,7 +427,8 @@ def _chunks(lst, n):
 def run(ctx):
     tasks = []
     for backend in ("ssl", "pyopenssl"):
-        cases = lattice(ctx.thorough, backend)
+        # the stdlib backend runs its full lattice in both tiers (a dozen seconds); the reduced one is for pyOpenSSL in the quick tier
+        cases = lattice(ctx.thorough or backend == "ssl", backend)
         if backend == "pyopenssl" and not ctx.thorough:
             cases = [c for c in cases if c["route"] == "direct" or c["assert_fingerprint"] is None]
         ctx.rng.shuffle(cases)
